@@ -223,6 +223,7 @@ class Recorder:
                 if self.prof.targets:
                     sys.settrace(self.prof.trace)
                 else:
+                    self.prof.reset_baseline()
                     sys.setprofile(self.prof)
             return fn(*a, **k)
         finally:
@@ -246,13 +247,17 @@ class Profiler:
         self.targets = [(t[0], t[1], t[2], set(t[3])) for t in (targets or [])]
         self.hit_lines = set()
         self.hit_funcs = set()
+        self.order, self.first_caller, self.dyn_edges, self.rng_consumers = [], {}, set(), set()
+        self.last, self.stack = None, []
 
     def trace(self, frame, event, arg):
         if event != "call":
             return None
-        self(frame, "call", None)
         co = frame.f_code
         fn = co.co_filename
+        if fn.startswith(self.root) and co.co_name not in ("<module>", "<listcomp>", "<dictcomp>", "<setcomp>",
+                                                           "<genexpr>", "<lambda>"):
+            self.seen.add(self.key_of(co))
         if self.targets and fn.startswith(self.root):
             rel = fn[len(self.root) - len("syne_tune/"):]
             for (f, lo, hi, lines) in self.targets:
@@ -270,13 +275,46 @@ class Profiler:
                     self.hit_lines.add((f, frame.f_lineno))
         return self.local
 
+    # ---- dynamic call edges, first-execution order, attribution of global-generator consumption ----
+    def reset_baseline(self):
+        self.last = None
+        self.stack = []
+
+    @staticmethod
+    def rng_mark():
+        st = np.random.get_state()
+        ps = pyrandom.getstate()[1]
+        return (st[2], int(st[1][0]), int(st[1][-1]), ps[-1], ps[0])
+
+    def key_of(self, co):
+        return (co.co_filename[len(self.root) - len("syne_tune/"):], co.co_firstlineno, co.co_name)
+
     def __call__(self, frame, event, arg):
-        if event == "call":
-            co = frame.f_code
-            fn = co.co_filename
-            if fn.startswith(self.root) and co.co_name not in ("<module>", "<listcomp>", "<dictcomp>", "<setcomp>",
-                                                               "<genexpr>", "<lambda>"):
-                self.seen.add((fn[len(self.root) - len("syne_tune/"):], co.co_firstlineno, co.co_name))
+        if event not in ("call", "return"):
+            return
+        co = frame.f_code
+        mine = co.co_filename.startswith(self.root) and co.co_name != "<module>"
+        # consumption of a global generator since the previous event belongs to the syne_tune function on top
+        mark = self.rng_mark()
+        if self.last is not None and mark != self.last:
+            self.rng_consumers.add(self.stack[-1] if self.stack else ("<harness>", 0, ""))
+        self.last = mark
+        if not mine:
+            return
+        k = self.key_of(co)
+        if event == "return":
+            if self.stack and self.stack[-1] == k:
+                self.stack.pop()
+            return
+        caller = self.stack[-1] if self.stack else None
+        self.stack.append(k)
+        if co.co_name not in ("<listcomp>", "<dictcomp>", "<setcomp>", "<genexpr>", "<lambda>"):
+            self.seen.add(k)
+        if k not in self.first_caller:
+            self.first_caller[k] = caller
+            self.order.append(k)
+        if caller is not None and caller != k:
+            self.dyn_edges.add((caller, k))
 
 
 def perturb(pert):
@@ -450,6 +488,10 @@ def run_sched_case(case, twin, repo):
         pass
     if prof:
         out["executed"] = sorted(prof.seen)
+        out["order"] = [[k[0], k[1], k[2], (list(prof.first_caller[k])[:2] if prof.first_caller[k] else None)]
+                        for k in prof.order]
+        out["dyn_edges"] = sorted([a[0], a[1], b[0], b[1]] for a, b in prof.dyn_edges)
+        out["rng_consumers"] = sorted(list(k) for k in prof.rng_consumers)
         out["hit_lines"] = sorted(prof.hit_lines)
         out["hit_funcs"] = sorted(prof.hit_funcs)
     return out
